@@ -537,6 +537,31 @@ pub fn check_set(rng: &mut SplitMix64, m: usize, items: &[(u64, f64)]) -> Vec<(S
             bad.push(("reset-2".into(), format!("ProbMinHash2 after reset differs from a new sketcher on the same input (m={}, {} items)", m, items.len()), inp(json!({}))));
         }
     }
+    // ProbMinHash2 through its container entry points, in one batch and in several: same signature as item-wise
+    {
+        let run_hm = |bs: &[Vec<(u64, f64)>], then_items: &[(u64, f64)]| {
+            let mut s = ProbMinHash2::<u64, FnvHasher>::new(m, INIT);
+            for b in bs {
+                let mut hm: HashMap<u64, f64> = HashMap::new();
+                for (id, w) in b { hm.insert(*id, *w); }
+                s.hash_weigthed_hashmap::<std::collections::hash_map::RandomState>(&hm);
+            }
+            for (id, w) in then_items { s.hash_item(*id, *w); }
+            (s.get_signature().clone(), s.verif_registers())
+        };
+        let one = run_hm(&[base.clone()], &[]);
+        let several = run_hm(&batches, &[]);
+        let mixed = run_hm(&batches[..1], &perm);
+        if one.0 != s2 {
+            bad.push(("entry-2".into(), format!("ProbMinHash2::hash_weigthed_hashmap (one batch) differs from item-wise hash_item ({} items, m={})", items.len(), m), inp(json!({"a": s2, "b": one.0}))));
+        }
+        if several.0 != s2 {
+            bad.push(("batch-2".into(), format!("ProbMinHash2::hash_weigthed_hashmap in {} batches differs from item-wise hash_item ({} items, m={})", batches.len(), items.len(), m), inp(json!({"a": s2, "b": several.0}))));
+        }
+        if mixed.0 != s2 {
+            bad.push(("batch-2".into(), format!("ProbMinHash2: one HashMap batch followed by hash_item of every pair differs from item-wise hash_item ({} items, m={})", items.len(), m), inp(json!({"a": s2, "b": mixed.0}))));
+        }
+    }
     // an already inserted pair again
     let mut dup = base.clone();
     dup.push(base[rng.below(base.len() as u64) as usize]);
@@ -600,6 +625,7 @@ pub fn props(args: &[String]) {
     // the recorded witness of the overflow finding always runs first
     let mut sets: Vec<(usize, Vec<(u64, f64)>)> = vec![(16, vec![(7u64, 2.3e-308f64)])];
     for _ in 0..n {
+        crate::util::tick_idx(0, serde_json::Value::Null);
         let m = if rng.coin(0.6) { rng.range(2, 12) } else { rng.range(2, 64) } as usize;
         let nitems = if rng.coin(0.2) { rng.range(1, 3) } else { rng.range(1, 80) } as usize;
         let wmode = rng.below(5);
@@ -684,6 +710,7 @@ pub fn mc(args: &[String]) {
             for m in [4usize, 64] {
                 let mut sum = 0.0f64;
                 for _ in 0..trials {
+                    crate::util::tick_idx(0, serde_json::Value::Null);
                     let ids: Vec<u64> = (0..wa.len()).map(|_| rng.next_u64() >> 4).collect();
                     let a: Vec<(u64, f64)> = ids.iter().zip(wa.iter()).filter(|(_, w)| **w > 0.).map(|(i, w)| (*i, *w)).collect();
                     let b: Vec<(u64, f64)> = ids.iter().zip(wb.iter()).filter(|(_, w)| **w > 0.).map(|(i, w)| (*i, *w)).collect();
@@ -700,6 +727,45 @@ pub fn mc(args: &[String]) {
                 let z = (mean - jp) / sigma;
                 if z.abs() > 6. {
                     found.push(json!({"family": name, "variant": variant, "m": m, "jp": jp, "mean_match_fraction": mean, "z": z, "trials": trials, "seed": seed}));
+                }
+            }
+        }
+    }
+    // very short signatures (m = 2, 3), few items of unequal weight, many trials: where a wrong rate of the truncated
+    // exponential or a wrong increment table shows (the effect vanishes like 1/m^2)
+    let tiny: Vec<(&str, Vec<f64>, Vec<f64>)> = vec![
+        ("tiny-m-unequal", vec![3., 1., 0.], vec![3., 0., 1.]),
+        ("tiny-m-shares", vec![1., 3.], vec![1., 3.]),
+    ];
+    for (name, wa, wb) in &tiny {
+        let jp = jp_exact(wa, wb);
+        for variant in ["3", "3a", "2"] {
+            for m in [2usize, 3] {
+                let big = trials * 100;
+                let mut sum = 0.0f64;
+                let mut first_is_light = 0u64;
+                for _ in 0..big {
+                    crate::util::tick_idx(0, serde_json::Value::Null);
+                    let ids: Vec<u64> = (0..wa.len()).map(|_| rng.next_u64() >> 4).collect();
+                    let a: Vec<(u64, f64)> = ids.iter().zip(wa.iter()).filter(|(_, w)| **w > 0.).map(|(i, w)| (*i, *w)).collect();
+                    let b: Vec<(u64, f64)> = ids.iter().zip(wb.iter()).filter(|(_, w)| **w > 0.).map(|(i, w)| (*i, *w)).collect();
+                    let (sa, sb) = match variant {
+                        "3" => (sig3(m, &a).0, sig3(m, &b).0),
+                        "3a" => (sig3a(m, &[a.clone()]).0, sig3a(m, &[b.clone()]).0),
+                        _ => (sig2(m, &a).0, sig2(m, &b).0),
+                    };
+                    sum += sa.iter().zip(sb.iter()).filter(|(x, y)| x == y).count() as f64 / m as f64;
+                    first_is_light += sa.iter().filter(|x| **x == a[0].0).count() as u64;
+                }
+                let (mean, expect) = if *name == "tiny-m-shares" {
+                    // single set: share of positions held by the first item = w_0 / sum(w)
+                    (first_is_light as f64 / (big * m) as f64, wa[0] / wa.iter().sum::<f64>())
+                } else { (sum / big as f64, jp) };
+                let sigma = (expect * (1. - expect) / (m as f64 * big as f64)).sqrt().max(1e-12);
+                let z = (mean - expect) / sigma;
+                if z.abs() > 6. {
+                    found.push(json!({"family": name, "variant": variant, "m": m, "jp": expect, "mean_match_fraction": mean, "z": z, "trials": big, "seed": seed,
+                                      "weights_a": wa, "weights_b": wb}));
                 }
             }
         }
